@@ -160,12 +160,18 @@ func (handler *Handler) loadByteArray(source []byte) (net1 *dhcpSubnet, net2 *dh
 		Net1   *SubnetConfig
 		Net2   *SubnetConfig
 		Leases []Lease
+		Count  int // number of leases saved; written last: a truncated file does not have it or does not match
 	}{}
 
 	// err = yaml.UnmarshalStrict(source, &table)
 	err = yaml.Unmarshal(source, &table)
 	if err != nil {
 		return nil, nil, nil, err
+	}
+
+	// a file cut short still parses, with the last lease damaged or missing: only a complete file is used
+	if table.Count != len(table.Leases) {
+		return nil, nil, nil, fmt.Errorf("lease file incomplete: %d leases, expected %d", len(table.Leases), table.Count)
 	}
 
 	// Validate net1 configuration to ensure IPs are good
@@ -255,6 +261,7 @@ func (h *Handler) saveConfig(fname string) (err error) {
 		Net1   *SubnetConfig
 		Net2   *SubnetConfig
 		Leases []Lease
+		Count  int
 	}{Net1: &h.net1.SubnetConfig, Net2: &h.net2.SubnetConfig}
 
 	for _, v := range h.table {
@@ -262,6 +269,7 @@ func (h *Handler) saveConfig(fname string) (err error) {
 			table.Leases = append(table.Leases, *v)
 		}
 	}
+	table.Count = len(table.Leases)
 
 	stream, err := yaml.Marshal(&table)
 	if err != nil {
